@@ -232,6 +232,18 @@ def check_config(ctx, F, tag, cfg):
         rl = Relabel(ctx, {"C08.R1.unsafe-site-discharged": ("C10.R11.iterator-reads-inside-the-vector", lambda k: "Iter" in k.split("|")[0])})
         c08.check_width_fields(rl, F, tag)
         c08.ledger(rl, F, tag)
+    if not isinstance(ctx, Relabel) and cfg == "native":
+        # (borrowed) the iterators of a plain bitvector count down the cached number of set bits, a popcount over whole words taken
+        # from the raw vector: "yields exactly count_ones() items inside the vector" holds only while the raw vector keeps its
+        # unused bits zero and no word past the end (C05.R1 / R3)
+        import c05
+        c05.check_tail_invariant(ctx, F, tag, prefix="C10.R12.unused-bits-zero")
+        c05.check_word_count(ctx, F, tag, rule="C10.R12.raw-vector-word-count")
+    if not isinstance(ctx, Relabel) and cfg in ("native", "portable"):
+        # (borrowed) select_iter / predecessor / successor start at the (rank, position) pair select() computes: the iterator yields
+        # the right items from there on only if the stored pointers and offsets are the ones the query reads (C01.R4)
+        import c01
+        c01.check_select_layout(Relabel(ctx, {"C01.R4.select-store-read-agreement": "C10.R13.select-store-read-agreement"}), F, tag)
     its = iterator_methods(F)
     # the counting rules read next / next_back / nth / nth_back / size_hint; an iterator that overrides another provided method
     # (last, count, fold, ..) answers through code they do not read -- whether it still yields the reference sequence "and keeps
